@@ -41,6 +41,18 @@ Eval vm_compute in (map (fun r => match pm_kraus r false, pm_kraus r true with
 
 
 # ------------------------------------------------------------------ pipeline runs
+def data_state(ex, pos):
+    """State of the data qubits; extra wires still alive (a measured, unfreed ancilla is in a basis
+    state) are split off - their being allocated is reported separately."""
+    extra = [w for w in ex.wires if w not in pos]
+    if not extra:
+        return ex.state_on(pos)
+    full = ex.state_on(pos + extra).reshape(2 ** len(pos), -1)
+    col = int(np.argmax(np.linalg.norm(full, axis=0)))
+    v = full[:, col]
+    return v / max(np.linalg.norm(v), 1e-300)
+
+
 class Runner:
     def __init__(self, ctx):
         self.ns = sv_pipeline.make()
@@ -76,9 +88,32 @@ class Runner:
         val = int(m)
         prob = ex.meas_log[0][2] if ex.meas_log else None
         live = [p for p in ex._qubit_unit_modules[conn.app_id] if p is not None]
-        return dict(ret=val, prob=prob, post=ex.state_on(pos), n_meas=len(ex.meas_log),
-                    anc_freed=sorted(live) == sorted(pos) and sorted(ex.wires) == sorted(pos),
+        clean = sorted(live) == sorted(pos) and sorted(ex.wires) == sorted(pos)
+        post = data_state(ex, pos)
+        return dict(ret=val, prob=prob, post=post, n_meas=len(ex.meas_log), anc_freed=clean, live=sorted(live),
                     script_left=len(ex.meas_script))
+
+    def parity_seq(self, nd, psi, calls):
+        """Several parity_meas calls on ONE connection and the same data qubits.
+        calls: [(bases, neg, forced)].  Each call is flushed separately; returns per call
+        (returned value, probability of the forced outcome or None, state after the call,
+        only-data-qubits-allocated)."""
+        ctrl, conn, ex, qs, pos = self.start(nd, psi)
+        out = []
+        for bases, neg, forced in calls:
+            ex.meas_script = [forced]
+            n0 = len(ex.meas_log)
+            m = self.parity_meas(qs, ("-" if neg else "") + bases)
+            conn.flush()
+            live = [p for p in ex._qubit_unit_modules[conn.app_id] if p is not None]
+            clean = sorted(live) == sorted(pos)
+            extra = [w for w in ex.wires if w not in pos]
+            post = data_state(ex, pos)
+            out.append(dict(ret=int(m), prob=ex.meas_log[n0][2] if len(ex.meas_log) > n0 else None,
+                            n_meas=len(ex.meas_log) - n0, post=post, clean=clean and not extra,
+                            live=sorted(live), script_left=len(ex.meas_script)))
+            ex.meas_script = []
+        return out
 
     def state_prep(self, phi, theta):
         ctrl, conn, ex, qs, pos = self.start(1, [1, 0])
@@ -155,8 +190,10 @@ def case_parity(ctx, R, model, idx, row, psi, forced):
             ok_doc, why = False, f"outcome probability {res['prob']} but the parity projector gives {pw}"
         elif np.linalg.norm(res["post"] - want / math.sqrt(pw)) > 1e-7:
             ok_doc, why = False, "post-measurement state is not the projected input"
-    if ok_doc and not res["anc_freed"]:
-        ok_doc, why = False, "ancilla still allocated / extra wires alive after the call"
+    if not res["anc_freed"]:
+        ok_doc = False
+        why = (why + "; " if why else "") + (f"after the call qubits {res['live']} are allocated on the controller, not only "
+                                             "the data qubits (ancilla not returned to |0> and freed)")
     if not ok_doc:
         ctx.violation(f"parity_meas({'-' if neg else ''}{bases}): {why}",
                       dict(kind="parity", bases=bases, neg=neg, psi=lst(psi), forced=forced, returned=r,
@@ -178,6 +215,59 @@ def case_parity(ctx, R, model, idx, row, psi, forced):
     return ok_model, ok_doc, r
 
 
+def proj_doc(bases, neg, r):
+    P = pauli_string(bases)
+    return (np.eye(len(P), dtype=complex) + (-1) ** (r ^ int(neg)) * P) / 2
+
+
+def case_parity_seq(ctx, R, nd, psi, calls):
+    """Sequence of parity_meas calls on one connection: each call must act as the documented
+    projector on the CURRENT state and leave only the data qubits allocated."""
+    res = R.parity_seq(nd, psi, calls)
+    cur = np.array(psi, dtype=complex)
+    unclean = None
+    for k, ((bases, neg, forced), out) in enumerate(zip(calls, res)):
+        why = ""
+        r = out["ret"]
+        trivial = all(c == "I" for c in bases)
+        if r not in (0, 1):
+            why = f"returned value {r}"
+        else:
+            want = proj_doc(bases, neg, r) @ cur
+            pw = float(np.linalg.norm(want) ** 2)
+            if trivial:
+                if pw < 1 - qc.TOL:
+                    why = "identity string returns the impossible value"
+            elif out["n_meas"] != 1:
+                why = f"{out['n_meas']} measurements in call {k + 1}"
+            elif abs(out["prob"] - pw) > qc.TOL:
+                why = f"call {k + 1}: outcome probability {out['prob']} but the parity projector gives {pw}"
+            if not why:
+                cur = want / math.sqrt(pw)
+                if out["post"] is None or dist_up_to_phase(out["post"], cur) > 1e-7:
+                    why = f"call {k + 1}: post-measurement state is not the projected state"
+            if not why and not out["clean"] and unclean is None:
+                unclean = (k, f"after call {k + 1} qubits {out['live']} are allocated on the controller, not only the "
+                              "data qubits (ancilla not returned to |0> and freed)")
+        if not why and unclean is not None and k == len(calls) - 1:
+            k, why = unclean                       # no wrong statistics seen: report the allocation post-condition
+        elif why and unclean is not None:
+            why += "; " + unclean[1]
+        if why:
+            ctx.violation("parity_meas sequence " + " ; ".join(("-" if n else "") + b for b, n, _ in calls) + ": " + why,
+                          dict(kind="parity_seq", nd=nd, psi=lst(psi), calls=[list(c) for c in calls], failing_call=k + 1,
+                               returned=[o["ret"] for o in res]),
+                          key="C20:parity_meas:sequence")
+            return False
+    return True
+
+
+def angle_err(emitted, angle):
+    """circular distance between the exactly emitted angle (Fraction, units of pi) and the requested one"""
+    x = (float(emitted) * math.pi - angle) % (2 * math.pi)
+    return min(x, 2 * math.pi - x)
+
+
 def case_state_prep(ctx, R, phi, theta):
     got, gates = R.state_prep(phi, theta)
     # exact model of what was emitted: rotations about Y, then about Z, by the emitted (n, d)
@@ -193,12 +283,22 @@ def case_state_prep(ctx, R, phi, theta):
             continue
         v = qc.rot_nd(g[0][-1], g[2], g[3]) @ v
     ok_model = order_ok and float(np.linalg.norm(got - v)) < qc.TOL
+    from fractions import Fraction
+    em = {"rot_y": Fraction(0), "rot_z": Fraction(0)}
+    for g in gates:
+        if g[0] in em:
+            em[g[0]] += Fraction(g[2], 2 ** g[3])
+    e_theta, e_phi = angle_err(em["rot_y"], theta), angle_err(em["rot_z"], phi)
     want = np.array([math.cos(theta / 2), cmath.exp(1j * phi) * math.sin(theta / 2)])
     d = dist_up_to_phase(got, want)
-    ok_doc = d <= ANGLE_TOL + 1e-9          # two rotations, each within ANGLE_TOL, each contributing half its angle error
+    # documented contract: EACH of the two rotations approximates its angle within ANGLE_TOL (1e-4 rad);
+    # the state error is then at most (e_theta + e_phi)/2 <= ANGLE_TOL
+    ok_doc = order_ok and e_theta <= ANGLE_TOL + 1e-12 and e_phi <= ANGLE_TOL + 1e-12 and d <= (e_theta + e_phi) / 2 + 1e-9
     if not ok_doc:
-        ctx.violation(f"set_qubit_state(phi={phi}, theta={theta}): prepared state is {d:.3e} away from the documented state",
-                      dict(kind="state_prep", phi=phi, theta=theta, got=lst(got), emitted=gates), key="C20:set_qubit_state")
+        ctx.violation(f"set_qubit_state(phi={phi!r}, theta={theta!r}): emitted rotations are off by {e_theta:.3e} rad (theta) / "
+                      f"{e_phi:.3e} rad (phi), tolerance {ANGLE_TOL}; prepared state is {d:.3e} away from the documented state",
+                      dict(kind="state_prep", phi=phi, theta=theta, got=lst(got), emitted=gates,
+                           theta_error=e_theta, phi_error=e_phi), key="C20:set_qubit_state")
     return ok_model, ok_doc
 
 
@@ -206,8 +306,10 @@ def case_state_prep(ctx, R, phi, theta):
 def run(ctx):
     ctx.rule = ("toffoli_gate / t_inverse: every computational basis state + random states; parity_meas: all 168 signed "
                 "Pauli strings of length 1..3 x input states (basis + Haar-like random) x both forced physical outcomes "
-                "(skipped when its probability is < 1e-9); set_qubit_state: grid + random (phi, theta) incl. negative and "
-                "> 2 pi; every case runs real SDK -> builder -> bytes -> deserialize -> Executor subclass with a numpy state "
+                "(skipped when its probability is 0); sequences of 2-3 parity_meas calls on one connection (first always "
+                "ancilla-based, same and different strings) x every vector of forced outcomes, with the post-condition that "
+                "only the data qubits stay allocated after each call; set_qubit_state: grid + random (phi, theta) incl. "
+                "negative and > 2 pi + adversarial angles just below k*pi/2^j and 2*pi, each rotation within 1e-4 rad; every case runs real SDK -> builder -> bytes -> deserialize -> Executor subclass with a numpy state "
                 "vector and is compared (1e-9) with the exact Coq model and with the documented operator; non-trivial = "
                 "input not an eigenstate-free trivial case (identity string) ; distinct = distinct (kind, string, sign, "
                 "input, forced outcome)")
@@ -221,24 +323,48 @@ def run(ctx):
                        "measurement outcomes with projection, state injection before the toolbox call")
     ctx.assume.append("vanilla flavour on generic hardware (no NV transpilation; with the NV compiler the statement "
                       "additionally rests on C07)")
-    ctx.assume.append("set_qubit_state: the float -> (n, d) expansion is covered by C19; here the prepared state must be "
-                      "within 1e-4 (the documented default tolerance per rotation, two rotations each contributing half "
-                      "its angle error) of the documented state")
+    ctx.assume.append("set_qubit_state: documented contract = each of the two rotations approximates its angle within the "
+                      "default tolerance 1e-4 rad (circular distance of the exactly summed emitted n*pi/2^d to the requested "
+                      "angle), hence the state within (e_theta + e_phi)/2 <= 1e-4; the expansion algorithm itself is C19's subject")
     ctx.assume.append("ring-generic theorems are axiom-free; C20_complex.v instantiates the Toffoli identity at the complex "
                       "numbers using the axioms of Coq's reals; parity_meas returns the default measure() Future (array future)")
-    if not ok:
-        return ctx.finish()
-    r = ctx.coqc("Gen_Toolbox.v")
-    ctx.gen_obligation("Gen_Toolbox.v type-checks", r.ok, r.err[-300:])
-    res = ctx.props("C20")
-    if res.ok:
-        qc.complex_props(ctx, "C20_complex")
-    tb = json.load(open(jpath))
-    model = model_values(ctx) if r.ok else None
+    model, res, tb = None, None, None
+    if ok:
+        r = ctx.coqc("Gen_Toolbox.v")
+        ctx.gen_obligation("Gen_Toolbox.v type-checks", r.ok, r.err[-300:])
+        res = ctx.props("C20")
+        if res.ok:
+            qc.complex_props(ctx, "C20_complex")
+        tb = json.load(open(jpath))
+        notes = tb.get("notes", {})
+        if any(notes.get(k) for k in ("toffoli", "t_inverse", "state_prep")) or notes.get("parity"):
+            ctx.coverage["translator_notes"] = dict(toffoli=notes.get("toffoli"), t_inverse=notes.get("t_inverse"),
+                                                    state_prep=notes.get("state_prep"), parity=notes.get("parity", [])[:10])
+            ctx.broken.append("gen/toolbox.py could not express: " + str(ctx.coverage["translator_notes"])[:400])
+        model = model_values(ctx) if r.ok else None
+    # the pipeline runs do not depend on the translator: every signed string, independently enumerated
+    all_rows = [dict(bases="".join(t), neg=neg, nd=n, const=(int(neg) if all(c == "I" for c in t) else None))
+                for n in (1, 2, 3) for t in itertools.product("IXYZ", repeat=n) for neg in (False, True)]
+    if tb is not None and [(r_["bases"], r_["neg"]) for r_ in tb["parity"]] != [(r_["bases"], r_["neg"]) for r_ in all_rows]:
+        ctx.broken.append("translator rows are not the 168 signed strings in enumeration order")
+        model = None
     R = Runner(ctx)
     rng = ctx.rng
     thorough = ctx.tier != "quick"
-    stats = {"toffoli": 0, "t_inverse": 0, "parity": 0, "parity_skipped_zero_prob": 0, "state_prep": 0}
+    stats = {"toffoli": 0, "t_inverse": 0, "parity": 0, "parity_skipped_zero_prob": 0, "parity_seq": 0,
+             "parity_seq_skipped_zero_prob": 0, "state_prep": 0, "state_prep_adversarial": 0, "raised": 0}
+
+    def guarded(kind, replay, fn):
+        """a toolbox call that raises on a fresh connection is itself a failure with a concrete input"""
+        try:
+            return fn()
+        except sv_pipeline.ImpossibleOutcome:
+            raise
+        except Exception as e:  # noqa
+            stats["raised"] += 1
+            if stats["raised"] <= 5:
+                ctx.violation(f"{kind}: the call raised {type(e).__name__}: {str(e)[:200]}", replay, key=f"C20:{kind}:raised")
+            return None
     mism = []
 
     def note(kind, key, okm, nontrivial=True):
@@ -253,10 +379,11 @@ def run(ctx):
         states = [("basis", k, basis_state(n, k)) for k in range(2 ** n)]
         states += [("random", i, rand_state(rng, n)) for i in range(40 if thorough else 8)]
         for tag, k, psi in states:
-            okm, okd = case_unitary(ctx, R, fake_model, which, psi)
-            note(which, (which, tag, k), okm)
+            out = guarded(which, dict(kind=which, psi=lst(psi)), lambda: case_unitary(ctx, R, fake_model, which, psi))
+            if out is not None:
+                note(which, (which, tag, k), out[0])
     # --- parity measurements
-    rows = tb["parity"]
+    rows = all_rows
     for idx, row in enumerate(rows):
         nd = row["nd"]
         ks = list(range(2 ** nd)) if thorough else sorted(set([0, 2 ** nd - 1, rng.randrange(2 ** nd)]))
@@ -268,7 +395,11 @@ def run(ctx):
                 if row["const"] is not None and forced == 1:
                     continue
                 try:
-                    okm, okd, r = case_parity(ctx, R, model, idx, row, psi, forced)
+                    out = guarded("parity_meas", dict(kind="parity", bases=row["bases"], neg=row["neg"], psi=lst(psi), forced=forced),
+                                  lambda: case_parity(ctx, R, model, idx, row, psi, forced))
+                    if out is None:
+                        continue
+                    okm, okd, r = out
                 except sv_pipeline.ImpossibleOutcome:
                     # this physical outcome has probability 0 on this input; the other one is then
                     # certain and its probability is compared with the documented projector below/above
@@ -283,22 +414,72 @@ def run(ctx):
                               key=f"C20:parity_meas:{'-' if row['neg'] else '+'}{row['bases']}")
             if row["const"] is None and not rets:
                 ctx.broken.append(f"parity_meas {row['bases']}: no measurement outcome possible")
+    # --- sequences of parity measurements on ONE connection (ancilla reuse, state carried over)
+    anc_strings = [r_ for r_ in all_rows if sum(c != "I" for c in r_["bases"]) >= 2]
+    n_seq = 250 if thorough else 40
+    for i in range(n_seq):
+        nd = rng.choice([2, 3, 3])
+        pool = [r_ for r_ in all_rows if r_["nd"] == nd]
+        apool = [r_ for r_ in anc_strings if r_["nd"] == nd]
+        k = rng.choice([2, 2, 3])
+        first = rng.choice(apool)                                  # the first call always uses the ancilla ...
+        rest = []
+        for j in range(k - 1):
+            c = rng.random()
+            rest.append(first if c < 0.3 else rng.choice(apool) if c < 0.85 else rng.choice(pool))
+        strings = [first] + rest
+        psi = rand_state(rng, nd) if i % 5 else basis_state(nd, rng.randrange(2 ** nd))
+        # ... and every vector of forced physical outcomes is tried: covers 1-then-anything
+        for forced in itertools.product((1, 0), repeat=k):
+            calls = [(r_["bases"], r_["neg"], f) for r_, f in zip(strings, forced)]
+            try:
+                out = guarded("parity_meas", dict(kind="parity_seq", nd=nd, psi=lst(psi), calls=[list(c) for c in calls]),
+                              lambda: case_parity_seq(ctx, R, nd, psi, calls))
+            except sv_pipeline.ImpossibleOutcome:
+                stats["parity_seq_skipped_zero_prob"] += 1
+                continue
+            if out is not None:
+                ctx.note_case(("parity_seq", tuple(calls), i))
+                stats["parity_seq"] += 1
     # --- state preparation
     grid = [0.0, math.pi / 2, math.pi, 3 * math.pi / 2, math.pi / 4, 1e-3, 2 * math.pi - 1e-3]
     cases = [(p, t) for p in grid for t in grid] if thorough else [(p, t) for p in grid[:4] for t in grid[:4]]
     cases += [(rng.uniform(-7, 14), rng.uniform(-7, 14)) for _ in range(300 if thorough else 40)]
-    for (phi, theta) in cases:
-        okm, okd = case_state_prep(ctx, R, phi, theta)
-        note("state_prep", ("state_prep", phi, theta), okm, nontrivial=abs(math.sin(theta / 2)) > 1e-6)
+    # adversarial angles: binary expansions (in units of pi) with long runs of one-bits, i.e. values just
+    # below k*pi/2^j and just below 2*pi, where an expansion needs its last term to reach the tolerance
+    adv = [3.141584, 3.141564, 6.2734, 6.274705, 4.319662]
+    for j in range(0, 9):
+        for kk in ([1, 2] if j == 0 else [1, 3, 2 ** j + 1, 2 ** (j + 1) - 1]):
+            for eps in (2e-6, 1.1e-5, 2.9e-5, 6e-5, 1.3e-4, 2.4e-4, 4.9e-4, 9e-4, 3e-3, 8e-3):
+                a = kk * math.pi / 2 ** j - eps
+                if 0 < a < 2 * math.pi:
+                    adv.append(a)
+    adv = sorted(set(adv))
+    if not thorough:
+        adv = adv[:5] + rng.sample(adv, 120)
+    n_plain = len(cases)
+    for a in adv:
+        other = rng.choice(grid + [rng.uniform(0, 6.28)])
+        cases.append((a, other) if rng.random() < 0.5 else (other, a))
+        if thorough:
+            cases.append((other, a) if cases[-1][0] == a else (a, other))
+    for ci, (phi, theta) in enumerate(cases):
+        out = guarded("set_qubit_state", dict(kind="state_prep", phi=phi, theta=theta),
+                      lambda: case_state_prep(ctx, R, phi, theta))
+        if out is not None:
+            note("state_prep", ("state_prep", phi, theta), out[0], nontrivial=abs(math.sin(theta / 2)) > 1e-6)
+            if ci >= n_plain:
+                stats["state_prep_adversarial"] += 1
     ctx.coverage["pipeline_runs"] = stats
     ctx.coverage["model_impl_mismatches"] = len(mism)
-    ctx.samples = [dict(kind="toffoli", gates=tb["toffoli"][:6] + ["..."]),
-                   dict(kind="parity", bases=rows[100]["bases"], neg=rows[100]["neg"], ops=rows[100]["ops"]),
-                   dict(kind="parity", bases=rows[167]["bases"], neg=rows[167]["neg"], ops=rows[167]["ops"]),
+    ctx.samples = [dict(kind="toffoli", gates=(tb["toffoli"][:6] if tb else []) + ["..."]),
+                   dict(kind="parity", bases=rows[100]["bases"], neg=rows[100]["neg"],
+                        ops=tb["parity"][100]["ops"] if tb else None),
+                   dict(kind="parity_seq", example="XZ ; -ZZ ; XZ with forced ancilla outcomes (1, 0, 1)"),
                    dict(kind="state_prep", phi=cases[-1][0], theta=cases[-1][1])]
     if mism and not ctx.violations:
         ctx.broken.append(f"correspondence pipeline vs Coq model: {len(mism)} differing cases, first: {mism[0]}")
-    if not res.ok and not ctx.violations:
+    if (res is None or not res.ok) and not ctx.violations:
         search(ctx, R, tb)
     ctx.finish()
 
@@ -334,6 +515,11 @@ def replay(ctx, path):
         row = dict(bases=rec["bases"], neg=rec["neg"], nd=nd, const=None if any(c != "I" for c in rec["bases"]) else int(rec["neg"]))
         try:
             _, okd, _ = case_parity(ctx, R, None, 0, row, vec(rec["psi"]), rec["forced"])
+        except sv_pipeline.ImpossibleOutcome:
+            okd = True
+    elif rec["kind"] == "parity_seq":
+        try:
+            okd = case_parity_seq(ctx, R, rec["nd"], vec(rec["psi"]), [tuple(c) for c in rec["calls"]])
         except sv_pipeline.ImpossibleOutcome:
             okd = True
     elif rec["kind"] == "state_prep":
